@@ -472,3 +472,146 @@ def witness(prop, t, consumed, clause):
                                        not any(y['e'] == 'FrameOut' and y['type'] == 2 and y['tag'] == x['tag'] for y in ev[:ev.index(x)])
                                        for x in ev[:consumed])
   return w
+
+
+# ------------------------------------------------------------------ direction A (serial transport)
+def _replay_serial(beh):
+  """Step the real thrift SocketTransportSink through one TLC behaviour of SerialTransport.tla.
+  Model steps 'spawned' and 'wrote' are one real state (the transaction greenlet writes as soon as it
+  runs); everything else maps one to one.  Projection: reported state, _processing set, deliveries,
+  error deliveries, fault signals."""
+  loop = common.boot()
+  import gevent
+  from harness.simgevent import simnet, peers
+  from harness.simgevent.vloop import EPOCH
+  from scales.constants import SinkProperties, MessageProperties
+  from scales.loadbalancer.zookeeper import Endpoint
+  from scales.message import MethodCallMessage, Deadline
+  from scales.sink import ClientMessageSink, ClientMessageSinkStack
+  from scales.thrift.sink import SocketTransportSink, ThriftSerializerSink
+  from test.scales.thrift.gen_py.hello import Hello
+  loop.settle()
+  net = simnet.SimNet(loop).install()
+  peer = peers.ThriftPeer(net)
+  net.peer_factory = lambda c: peer
+  net.on_connect_start = lambda conn: setattr(conn, 'connect_plan', ('manual',))
+  ser = ThriftSerializerSink.Builder()
+  ser.next_provider = SocketTransportSink.Builder()
+  top = ser.CreateSink({SinkProperties.Endpoint: Endpoint('10.0.0.1', 9090), SinkProperties.Label: 'svc',
+                        SinkProperties.ServiceInterface: Hello.Iface})
+  transport = top.next_sink
+  got, errs, sig = {}, {}, [0]
+  deadlines = {}
+
+  class Terminal(ClientMessageSink):
+    def AsyncProcessRequest(self, *a):
+      raise NotImplementedError()
+
+    def AsyncProcessResponse(self, sink_stack, context, stream, msg):
+      got[context] = got.get(context, 0) + 1
+      if msg is None or getattr(msg, 'error', None) is not None:
+        errs[context] = errs.get(context, 0) + 1
+  terminal = Terminal()
+  transport.on_faulted.Subscribe(lambda v: sig.__setitem__(0, sig[0] + 1))
+  drift = None
+  steps = 0
+
+  def live_conn():
+    cs = [c for c in net.conns if c.connected and not c.closed]
+    return cs[-1] if cs else None
+
+  def pending_connect():
+    cs = [c for c in net.conns if c.waiting == 'connect']
+    return cs[-1] if cs else None
+
+  prev = beh[0][1]
+  for (act, st) in beh[1:]:
+    name, params = act
+    ok = True
+    if name == 'Open':
+      gevent.spawn(lambda: top.Open().wait())
+    elif name in ('ConnectOk', 'ReopenOk'):
+      c = pending_connect()
+      ok = c is not None
+      if ok:
+        c.resolve_connect(True)
+    elif name in ('ConnectRefused', 'ReopenRefused'):
+      c = pending_connect()
+      ok = c is not None
+      if ok:
+        c.resolve_connect(False)
+    elif name == 'Request':
+      r = params[0]
+      msg = MethodCallMessage(Hello.Iface, 'hi', ('r%d' % r,), {})
+      msg.properties[MessageProperties.Endpoint] = None
+      deadlines[r] = loop.now() + 50.0
+      msg.properties[Deadline.KEY] = deadlines[r]
+      stack = ClientMessageSinkStack()
+      stack.Push(terminal, r)
+      gevent.spawn(top.AsyncProcessRequest, stack, msg, None, {})
+    elif name == 'TxnOk':
+      if prev['step'] == 'wrote':
+        un = [p for p in peer.unanswered() if not p.conn.closed and p.reply is not None]
+        ok = bool(un)
+        if ok:
+          body = un[-1].reply
+          un[-1].conn.user['body'] = body
+          un[-1].conn.feed(len(body).to_bytes(4, 'big'))
+      elif prev['step'] == 'hdr':
+        c = live_conn()
+        ok = c is not None and 'body' in c.user
+        if ok:
+          for p in peer.unanswered():
+            if p.conn is c:
+              p.answered = True
+          c.feed(c.user.pop('body'))
+    elif name == 'TxnFault':
+      c = live_conn()
+      if c is not None:
+        c.feed_error()
+      else:
+        ok = prev['sock'] != 'open'     # nothing to break: the write itself fails on the dead socket
+    elif name == 'TxnTimeout':
+      r = prev['proc']
+      loop.run_until(deadlines.get(r, loop.now()))
+    elif name == 'OwnerClose':
+      top.Close()
+    loop.settle()
+    steps += 1
+    prev = st
+    if not ok:
+      drift = drift or {'step': steps, 'action': [name, params], 'spec': 'action applicable', 'real': 'no counterpart'}
+      break
+    try:
+      rs = int(transport.state)
+      real = {'reported': {1: 'Idle', 2: 'Open', 3: 'Open', 4: 'Closed'}[rs],
+              'proc': transport._processing is not None, 'signals': sig[0],
+              'got': sorted(got.items()), 'errs': sorted(errs.items())}
+    except Exception:
+      real = None
+    if real is not None and drift is None:
+      reported = 'Open' if st['sock'] == 'open' else st['tstate']
+      spec = {'reported': reported, 'proc': st['proc'] != 0, 'signals': st['signals'],
+              'got': sorted((i + 1, v) for i, v in enumerate(st['got']) if v),
+              'errs': sorted((i + 1, v) for i, v in enumerate(st['errs']) if v)}
+      if spec != real:
+        drift = {'step': steps, 'action': [name, params], 'spec': spec, 'real': real}
+  return {'steps': steps, 'drift': drift}
+
+
+def replay_behaviours(prop, tier, seed):
+  if prop != 'C08':
+    return {'summary': {}, 'traces': [], 'drift': []}
+  from harness import tlc
+  num = 300 if tier == 'quick' else 3000
+  r, behs = tlc.simulate_behaviours('SerialTransport', 'SerialTransport_sim.cfg', num=num, depth=30, seed=int(seed) + 3)
+  if not behs:
+    raise RuntimeError('no behaviours from TLC simulate:\n' + r.stdout[-1500:])
+  res = common.run_forked(_replay_serial, behs)
+  errs_ = [x['err'] for x in res if 'err' in x]
+  if errs_:
+    raise RuntimeError('serial replay failed: ' + errs_[0])
+  drift = [x['ok']['drift'] for x in res if x['ok']['drift']]
+  return {'summary': {'model': 'SerialTransport', 'behaviours_replayed': len(behs),
+                      'steps_compared': sum(x['ok']['steps'] for x in res), 'drift': len(drift)},
+          'traces': [], 'drift': drift}
